@@ -89,6 +89,13 @@ pub fn near_misses(g: &mut Gen, p: &[u8]) -> Vec<(&'static str, Vec<u8>)> {
         q.extend_from_slice(p);
         v.push(("doubled", q));
     }
+    // a digest of the password used as the password (pre-hashing of long inputs)
+    for h in [crate::spec::HashAlg::Sha256, crate::spec::HashAlg::Sha384, crate::spec::HashAlg::Sha512] {
+        v.push(("digest_of_password", h.hash(&[p])));
+    }
+    if n > 0 && p.iter().all(|b| *b == 0) {
+        v.push(("all_zero_vs_empty", vec![]));
+    }
     let r = g.bytes(n.max(1).min(64));
     v.push(("unrelated", r));
     v.retain(|(_, q)| q != p);
@@ -139,6 +146,8 @@ pub fn gen_world(seed: u64, idx: u64, s: &dyn SuiteOps, cover: usize, per_world:
     }
     let mut fam_pw = near_misses(&mut g, &pw);
     g.shuffle(&mut fam_pw);
+    // structural near-misses are always kept; the bit flips fill the rest of the budget
+    fam_pw.sort_by_key(|(name, _)| *name == "bitflip");
     fam_pw.truncate(per_world);
     let nh = s.lens().nh;
     for (k, (_name, q)) in fam_pw.iter().enumerate() {
@@ -170,7 +179,7 @@ pub fn gen_world(seed: u64, idx: u64, s: &dyn SuiteOps, cover: usize, per_world:
 
 pub fn run(ctx: &Ctx) -> Report {
     let mut rep = Report::new(
-        "per world: one registration (password from the length/content classes incl. embedded NUL and 65535 bytes), one honest login, then near-miss logins (all single-bit flips for <=32-byte passwords / 64 sampled otherwise, drop/add first/last byte, prefixes, extensions, case flip, trailing space/newline/NUL, NUL-truncation twin, empty vs non-empty, length-prefix shapes, doubled, unrelated) applied at start only / finish only / both; every existing finalization + zero + random is fed to each failed session's server state; non-trivial = world contains at least one predicted rejection; distinct = hash of (suite, op/outcome sequence)",
+        "per world: one registration (password from the length/content classes incl. embedded NUL and 65535 bytes), one honest login, then near-miss logins (all single-bit flips for <=32-byte passwords / 64 sampled otherwise, drop/add first/last byte, prefixes, extensions, case flip, trailing space/newline/NUL, NUL-truncation twin, empty vs non-empty, length-prefix shapes, doubled, SHA-256/384/512 digest of the password, unrelated) applied at start only / finish only / both; every existing finalization + zero + random is fed to each failed session's server state; non-trivial = world contains at least one predicted rejection; distinct = hash of (suite, op/outcome sequence)",
     );
     let mut suites: Vec<&'static dyn SuiteOps> = SIM_SUITES.to_vec();
     suites.extend(ID_SUITES.iter().step_by(3));
